@@ -311,13 +311,13 @@ fn map_obs(sm: &sourcemap::SourceMap) -> String {
 }
 fn gen_map(r: &mut Rng, sorted_sources: bool) -> sourcemap::SourceMap {
     let spool = ["a.js", "b.js", "", "/abs/c.js", "http://x/d.js", "/abs/e/f.js", "a.js", "q/\u{e9}.js", "https:g.js", "http:h.js", "/absolute/z.js", "/abs", "http://xy/w.js",
-        "src/\u{e9}.js", "\u{65e5}\u{672c}\u{8a9e}.js", "app/\u{1f600}.js", "webpack:///./src/a.js?abcd", "lib/x>y~.js", "e.js", "/abs/a.js", "Http://x/d.js", "/work/a/i.js", "/work/b/i.js", "/abs/a.js", "/work/a/i.js", "C:\\x\\y.js", "c:/x/z.js", "C:\\x\\w\\v.js", "1:/n.js", "/x.js", "/y.js", "/abs/dir/", "dir/", "/src/\u{e9}.js", "/src/\u{ea}.js", "/src/\u{65e5}.js", "/src/\u{65e9}.js", "dir\\", "C:\\proj\\", "./a.js", "./b.js"];
+        "src/\u{e9}.js", "\u{65e5}\u{672c}\u{8a9e}.js", "app/\u{1f600}.js", "webpack:///./src/a.js?abcd", "lib/x>y~.js", "e.js", "/abs/a.js", "Http://x/d.js", "/work/a/i.js", "/work/b/i.js", "/abs/a.js", "/work/a/i.js", "C:\\x\\y.js", "c:/x/z.js", "C:\\x\\w\\v.js", "1:/n.js", "/x.js", "/y.js", "/abs/dir/", "dir/", "/src/\u{e9}.js", "/src/\u{ea}.js", "/src/\u{65e5}.js", "/src/\u{65e9}.js", "dir\\", "C:\\proj\\", "./a.js", "./b.js", "~/static/a.js", "~"];
     let npool = ["x", "y", "", "fn", "x", "\u{1f44c}ok", "caf\u{e9}", "a>b?c~", "q\\", "\\\""];
     let nsrc = 1 + r.below(4) as usize; let nn = r.below(4) as usize;
     let srcs: Vec<&str> = (0..nsrc).map(|i| if sorted_sources { spool[i] } else { spool[r.below(spool.len() as u64) as usize] }).collect();
     let names: Vec<&str> = (0..nn).map(|_| npool[r.below(npool.len() as u64) as usize]).collect();
     let mut toks = gen_toks(r, nsrc as u32, nn as u32, 10, true); toks.sort_by_key(|t| (t.dl, t.dc));
-    let contents: Vec<Option<std::sync::Arc<str>>> = (0..nsrc).map(|i| match r.below(9) { 0 => Some("".into()), 1..=3 => Some(format!("content{}", i).into()), 4 => Some(format!("{}x=>y??z~\u{1f44c}\u{e9}", &"ab"[..i % 3]).into()), 5 if i % 2 == 0 => Some("ends in a backslash \\".into()), _ => None }).collect();
+    let contents: Vec<Option<std::sync::Arc<str>>> = (0..nsrc).map(|i| match r.below(9) { 0 => Some("".into()), 1..=3 => Some(format!("content{}", i).into()), 4 => Some(format!("{}x=>y??z~\u{1f44c}\u{e9}", &"ab"[..i % 3]).into()), 5 if i % 2 == 0 => Some("ends in a backslash \\".into()), 5 => Some("\u{feff}var bom = 1;\n".into()), _ => None }).collect();
     let raw: Vec<sourcemap::RawToken> = toks.iter().map(|t| sourcemap::RawToken { dst_line: t.dl, dst_col: t.dc, src_line: t.sl, src_col: t.sc, src_id: t.src, name_id: t.name, is_range: t.range }).collect();
     // the contents list handed over may be shorter than the sources (a builder whose contents were set before more sources were added)
     let contents = if r.below(6) == 0 && nsrc >= 2 { contents[..1 + r.below(nsrc as u64 - 1) as usize].to_vec() } else { contents };
@@ -330,7 +330,7 @@ fn run_rewrite(r: &mut Rng, n: u64) {
     for i in 0..n {
         let sm = gen_map(r, false); let input = map_in(&sm);
         let wn = r.below(2) == 0; let wc = r.below(2) == 0;
-        let prefixes: Vec<&str> = match r.below(11) { 0 => vec!["/abs"], 1 => vec!["/abs/", "http://x"], 2 => vec!["~"], 3 => vec!["~", "/abs"], 4 => vec!["http://x", "~", "/abs/e"], 5 => vec!["/abs", "e"], 6 => vec!["/abs/", "c.js", "e/"], 7 => vec!["/work/a/", "/work/b/", "/abs/"], _ => vec![] };   // 7: different sources that become equal after stripping
+        let prefixes: Vec<&str> = match r.below(11) { 0 => vec!["/abs"], 1 => vec!["/abs/", "http://x"], 2 => vec!["~"], 3 => vec!["~", "/abs"], 4 => vec!["http://x", "~", "/abs/e"], 5 => vec!["/abs", "e"], 6 => vec!["/abs/", "c.js", "e/"], 7 => vec!["/work/a/", "/work/b/", "/abs/"], 8 => vec!["~/"], 9 => vec!["/work/", "~/", "~x"], _ => vec![] };   // 7: different sources that become equal after stripping
         let opts = sourcemap::RewriteOptions { with_names: wn, with_source_contents: wc, strip_prefixes: &prefixes, ..Default::default() };
         let out = match catch_unwind(AssertUnwindSafe(|| sm.rewrite(&opts))) { Ok(Ok(m)) => format!("ok {}", map_obs(&m)), Ok(Err(e)) => format!("err {}", err_name(&e)), Err(_) => "panic".into() };
         outln!("r{}\trewrite\t{}\t{}\t{}\t{}\t{}", i, input, wn as u8, wc as u8, prefixes.iter().map(|p| hex(p.as_bytes())).collect::<Vec<_>>().join(","), out);
@@ -425,7 +425,7 @@ fn run_locate(r: &mut Rng, n: u64) {
         if long_line { t.extend(std::iter::repeat(b'x').take(start - 1)); t.push(b'\n'); } else { while t.len() + 8 <= start { t.extend(b"var a;\r\n"); } while t.len() + 1 < start { t.push(b';'); } if t.len() < start { t.push(b'\n'); } }
         t.extend(if (d + mult) % 2 == 0 { &b"//# sourceMappingURL=big.map"[..] } else { &b"//@ sourceMappingURL=old.map\n//# sourceMappingURL=second.map\n"[..] });
         if d % 5 != 0 || !long_line { locate_case(&format!("x{}", k), &t); } k += 1; } } }
-    let parts = ["foo();", "", "//# sourceMappingURL=a.map", "//@ sourceMappingURL=b.map", " //# sourceMappingURL=c.map", "x //# sourceMappingURL=d.map", "//# sourceMappingURL=", "//# sourceMappingURL=  e.map \t", "//#sourceMappingURL=f.map", "//# sourcemappingurl=h", "//# sourceMappingURL=\u{a0}g.map\u{a0}"];
+    let parts = ["foo();", "", "//# sourceMappingURL=a.map", "//@ sourceMappingURL=b.map", " //# sourceMappingURL=c.map", "x //# sourceMappingURL=d.map", "//# sourceMappingURL=", "//# sourceMappingURL=  e.map \t", "//#sourceMappingURL=f.map", "//# sourcemappingurl=h", "//# sourceMappingURL=\u{a0}g.map\u{a0}", "s=\"\u{1f600} sourceMappingURL=x\";", "\u{65e5}a sourceMappingURL=y", "a();//# sourceMappingURL=glued.map", "\u{e9}# sourceMappingURL=z", "// sourceMappingURL=w"];
     for i in 0..n {
         let k = r.below(5); let mut text = String::new();
         for j in 0..k { text.push_str(parts[r.below(parts.len() as u64) as usize]); if j + 1 < k || r.below(2) == 0 { text.push_str(if r.below(2) == 0 { "\n" } else { "\r\n" }); } }
@@ -468,7 +468,9 @@ fn run_hdr(r: &mut Rng, n: u64) {
         // a byte order mark in front of the document or of the header (not JSON, not a junk start byte: whatever one path does, the other does)
         b"\xef\xbb\xbf", b"\xef\xbb\xbf)]}'\n", b"\xef\xbb", b"\xfe\xff",
         // garbage that looks like the beginning of a document
-        b")]}' {generated}\n", b"){\"version\":3}\r\n", b"]{\n", b"'[{\n"];
+        b")]}' {generated}\n", b"){\"version\":3}\r\n", b"]{\n", b"'[{\n",
+        // other things servers put in front of JSON: not a junk start byte, so not a header on any path
+        b"false\n", b"while(1);\n", b"for(;;);\r\n", b"while (1);\n", b"w\n", b"null\n", b"true\r\n", b"0\n", b"//\n", b"/**/\n"];
     for i in 0..n {
         let body = bodies[if r.below(3) == 0 { r.below(bodies.len() as u64) as usize } else { 0 }];
         let mut doc = headers[r.below(headers.len() as u64) as usize].to_vec();
@@ -836,7 +838,7 @@ fn run_hermes(r: &mut Rng, n: u64) {
                     // an unparsable string: a foreign byte, or a value cut off after some complete values of the same segment
                     let garbage = k == 2 && r.below(2) == 0; if garbage { s.push_str([",!", ",AAg", ",CDg", "g", ",AAA!", ";AAAAAAg", ",U!A", ",UC*", ";???", ",A\u{e9}", ",AAAAAAA"][r.below(10) as usize]); }
                     let mut arr = vec![serde_json::json!({"names": names, "mappings": s})];
-                    if r.below(5) == 0 { arr.push(serde_json::json!({"names": ["other"], "mappings": "AAA"})); }
+                    if r.below(5) == 0 || (s.is_empty() && r.below(2) == 0) { arr.push(serde_json::json!({"names": ["other"], "mappings": "AAA"})); }   // only the first element of the metadata tuple is the function map, even an empty one
                     fb_json.push(serde_json::Value::Array(arr));
                     fb_descr.push(format!("{}@{}@{}@{}", names.iter().map(|x| format!("={}", hex(x.as_bytes()))).collect::<Vec<_>>().join(","), hex(s.as_bytes()),
                         entries.iter().map(|e| format!("{}:{}:{}", e.0, e.1, e.2)).collect::<Vec<_>>().join(";"), if garbage { "g" } else if messy { "m" } else { "s" }));
@@ -1408,6 +1410,16 @@ fn run_api(r: &mut Rng, n: u64, group: &str) {
                         chk("SourceMapHermes::from_reader", sourcemap::SourceMapHermes::from_reader(rd()).map(|m| dm_full_obs(&sourcemap::DecodedMap::Hermes(m))).map_err(|_| ()) == sourcemap::SourceMapHermes::from_slice(&bytes).map(|m| dm_full_obs(&sourcemap::DecodedMap::Hermes(m))).map_err(|_| ()));
                         chk("SourceMapHermes::from_slice kinds", sourcemap::SourceMapHermes::from_slice(&bytes).is_ok() == matches!(dm, sourcemap::DecodedMap::Hermes(_)));
                         chk("is_sourcemap", sourcemap::is_sourcemap(rd()) && sourcemap::is_sourcemap_slice(&bytes));
+                        // both spellings of the debug id key, with different values: "debug_id" wins and "debugId" alone is read -- for regular and for Hermes documents alike
+                        if !matches!(dm, sourcemap::DecodedMap::Index(_)) { if let Ok(serde_json::Value::Object(mut o)) = serde_json::from_slice::<serde_json::Value>(&body) {
+                            let (ida, idb) = ("00000000-0000-0000-0000-00000000000a", "00000000-0000-0000-0000-00000000000b");
+                            o.remove("debug_id"); o.remove("debugId"); o.insert("debug_id".into(), serde_json::json!(ida)); o.insert("debugId".into(), serde_json::json!(idb));
+                            let both = serde_json::to_vec(&serde_json::Value::Object(o.clone())).unwrap();
+                            let id_of = |d: sourcemap::Result<sourcemap::DecodedMap>| d.ok().and_then(|d| match d { sourcemap::DecodedMap::Regular(m) => m.get_debug_id(), sourcemap::DecodedMap::Hermes(m) => m.get_debug_id(), sourcemap::DecodedMap::Index(_) => None }).map(|x| x.to_string());
+                            chk("debug_id wins over debugId", id_of(sourcemap::decode_slice(&both)).as_deref() == Some(ida));
+                            o.remove("debug_id"); let only_new = serde_json::to_vec(&serde_json::Value::Object(o)).unwrap();
+                            chk("debugId alone is read", id_of(sourcemap::decode_slice(&only_new)).as_deref() == Some(idb));
+                        } }
                         // the same document with its dispatch key spelled with a JSON escape ("\u0073ections"): a key is a JSON string, every entry point reads it alike
                         { let text = String::from_utf8(bytes.clone()).unwrap(); let esc = text.replacen("\"sections\"", "\"\\u0073ections\"", 1).replacen("\"x_facebook_sources\"", "\"x_facebook_\\u0073ources\"", 1).replacen("\"mappings\"", "\"mapping\\u0073\"", 1);
                           let eb = esc.as_bytes(); let rd2 = || Chunked { data: eb, pos: 0, sizes: sizes.clone(), k: 0 };
